@@ -273,6 +273,8 @@ def rewriting(cirq):
         'optimize_for_target_gateset(CZ)': lambda c, context=None: cirq.optimize_for_target_gateset(c, gateset=cirq.CZTargetGateset(), context=context),
         'optimize_for_target_gateset(SqrtIswap)': lambda c, context=None: cirq.optimize_for_target_gateset(c, gateset=cirq.SqrtIswapTargetGateset(), context=context),
         'unroll_circuit_op': lambda c, context=None: cirq.unroll_circuit_op(c, deep=True, tags_to_check=None),
+        'unroll_circuit_op_greedy_earliest': lambda c, context=None: cirq.unroll_circuit_op_greedy_earliest(c, deep=True, tags_to_check=None),
+        'unroll_circuit_op_greedy_frontier': lambda c, context=None: cirq.unroll_circuit_op_greedy_frontier(c, deep=True, tags_to_check=None),
         'add_dynamical_decoupling': cirq.add_dynamical_decoupling,
         'drop_diagonal_before_measurement': cirq.drop_diagonal_before_measurement,
         'merge_operations_to_circuit_op': lambda c, context=None: cirq.merge_operations_to_circuit_op(c, lambda a, b: True, deep=bool(context and context.deep), tags_to_ignore=context.tags_to_ignore if context else ()),
@@ -358,6 +360,8 @@ def run(ctx: common.Run):
         (cirq.Circuit(cirq.measure(cq0, key='a'), cirq.X(cq1).with_classical_controls('a'), cirq.X(cq0), cirq.measure(cq0, key='a')), ['defer_measurements']),
         (cirq.Circuit(cirq.X(cq0), cirq.measure(cq0, key='a'), cirq.I(cq1), cirq.Moment(cirq.H(cq1)), cirq.Moment(cirq.H(cq1)), cirq.measure(cq1, key='a')), ['synchronize_terminal_measurements']),
         (cirq.Circuit(cirq.Moment(cirq.H(cq0), cirq.Y(cq1)), cirq.Moment(cirq.measure(cq0, key='a')), cirq.Moment(cirq.X(cq1).with_classical_controls('a')), cirq.Moment(cirq.measure(cq1, key='b'))), ['merge_operations_to_circuit_op', 'merge_operations(sub-circuit)']),
+        (cirq.Circuit(cirq.CircuitOperation(cirq.FrozenCircuit(cirq.H(cq0), cirq.measure(cq0, key='a'), cirq.X(cq1).with_classical_controls('a'), cirq.measure(cq1, key='b')))),
+         ['unroll_circuit_op', 'unroll_circuit_op_greedy_earliest', 'unroll_circuit_op_greedy_frontier']),
         (cirq.Circuit(cirq.X(cq0) ** 0.3, cirq.Moment(cirq.H(cq1)), cirq.Moment(cirq.Y(cq0).with_tags(IGN)), cirq.Moment(cirq.H(cq1)), cirq.X(cq0) ** 0.2, cirq.CZ(cq0, cq1)), ['add_dynamical_decoupling'], 'ignored'),
     ]
     for i in range(n + len(corpus)):
@@ -372,6 +376,11 @@ def run(ctx: common.Run):
             ctx.count('stream', 'eject')
         else:
             circuit, qs = random_circuit(cirq, rng, measured=(variant == 'measured'), with_sub=(variant == 'sub'), with_ignored=(variant == 'ignored'))
+        if variant == 'measured' and forced is None and rng.random() < 0.3:
+            # the whole circuit as one sub-circuit operation (measurements and their controlled operations inside): the unrolling
+            # primitives have to keep the classical dependencies
+            circuit = cirq.Circuit(cirq.CircuitOperation(circuit.freeze()))
+            ctx.count('stream', 'wrapped-measured')
         if forced is not None:
             circuit, qs = forced[0], sorted(forced[0].all_qubits())
         is_unitary = not any(cirq.is_measurement(o) or isinstance(o.untagged, cirq.ClassicallyControlledOperation) for o in flat_ops(cirq, circuit))
@@ -384,7 +393,8 @@ def run(ctx: common.Run):
         if stream == 'eject':
             must = ['eject_z', 'eject_z(eject_parameterized)', 'eject_phased_paulis', 'merge_single_qubit_gates_to_phxz']
         elif variant == 'measured':
-            must = ['merge_operations_to_circuit_op', 'merge_operations(sub-circuit)', 'defer_measurements', 'synchronize_terminal_measurements', 'drop_diagonal_before_measurement']
+            must = ['merge_operations_to_circuit_op', 'merge_operations(sub-circuit)', 'defer_measurements', 'synchronize_terminal_measurements', 'drop_diagonal_before_measurement',
+                    'unroll_circuit_op_greedy_frontier', 'unroll_circuit_op_greedy_earliest']
         chosen = must + [x for x in chosen if x not in must][: max(0, len(chosen) - len(must))]
         if forced is not None:
             chosen = forced[1]
